@@ -33,10 +33,145 @@ let rle_line (cap : string) (src : string) : string =
   | RleModel.RleOOBWrite -> "R OOB-WRITE"
   | RleModel.RleFuel -> "R OUT-OF-FUEL"
 
+(* ---- file cases: "F <opts> <spec> ..." with <spec> = <seed>[@trunc][+off:hex]...
+   The model gets exactly the bytes the C driver writes to its temporary file. *)
+let read_file (path : string) : Bytes.t =
+  let ic = open_in_bin path in
+  let n = in_channel_length ic in
+  let b = Bytes.create n in
+  really_input ic b 0 n; close_in ic; b
+
+let seed_cache : (string, Bytes.t) Hashtbl.t = Hashtbl.create 31
+
+let build_spec (spec : string) : Bytes.t =
+  let parts = split_on '+' spec in
+  let head = Stdlib.List.hd parts and patches = Stdlib.List.tl parts in
+  let path, trunc = match split_on '@' head with
+    | [p; t] -> p, Some (int_of_string ("0x" ^ t))
+    | _ -> head, None in
+  let seed = (match Hashtbl.find_opt seed_cache path with
+    | Some b -> b
+    | None -> let b = read_file path in Hashtbl.add seed_cache path b; b) in
+  let data = ref (Bytes.copy seed) in
+  let len = ref (Bytes.length seed) in
+  Stdlib.List.iter (fun p ->
+    match split_on ':' p with
+    | [off; hex] ->
+        let off = int_of_string ("0x" ^ off) and n = String.length hex / 2 in
+        if off + n > Bytes.length !data then begin
+          let nb = Bytes.make (off + n) '\000' in
+          Bytes.blit !data 0 nb 0 (Bytes.length !data); data := nb end;
+        for i = 0 to n - 1 do
+          Bytes.set !data (off + i) (Char.chr (hexval hex.[2*i] * 16 + hexval hex.[2*i+1]))
+        done;
+        if off + n > !len then len := off + n
+    | _ -> ()) patches;
+  (match trunc with Some t when t < !len -> len := t | _ -> ());
+  Bytes.sub !data 0 !len
+
+(* the model's file: byte at every offset, zero beyond the end *)
+let small_int_of_n (n : BinNums.coq_N) : int =       (* -1 if it does not fit 40 bits *)
+  let rec go p depth = if depth > 40 then -1 else
+    match p with
+    | BinNums.Coq_xH -> 1
+    | BinNums.Coq_xO q -> let r = go q (depth + 1) in if r < 0 then -1 else 2 * r
+    | BinNums.Coq_xI q -> let r = go q (depth + 1) in if r < 0 then -1 else 2 * r + 1 in
+  match n with BinNums.N0 -> 0 | BinNums.Npos p -> go p 0
+
+let file_of_bytes (b : Bytes.t) : BinNums.coq_N -> BinNums.coq_N =
+  let len = Bytes.length b in
+  fun (n : BinNums.coq_N) ->
+    let i = small_int_of_n n in
+    if i >= 0 && i < len then byte_table.(Char.code (Bytes.get b i)) else BinNums.N0
+
+let alim = n_of_hex "40000000"          (* 1 GiB: ASAN max_allocation_size_mb=1024 *)
+
+let us s = String.map (fun c -> if c = ' ' then '_' else c) s
+let dec n = Printf.sprintf "%d" (int_of_n n)
+(* unsigned decimal of an N that may exceed max_int *)
+let dec_n (n : BinNums.coq_N) : string =
+  let h = hex_of_n n in
+  if String.length h <= 15 then string_of_int (int_of_string ("0x" ^ h))
+  else Printf.sprintf "%Lu" (Int64.of_string ("0x" ^ h))
+
+let status_name = function
+  | Bounded.KOK -> "OK" | Bounded.KSYSTEM -> "SYSTEM" | Bounded.KNOTIMPL -> "NOTIMPL"
+  | Bounded.KNODATA -> "NODATA" | Bounded.KCORRUPT -> "CORRUPT" | Bounded.KINVALID -> "INVALID"
+  | Bounded.KNOKEY -> "NOKEY" | Bounded.KEOF -> "EOF" | Bounded.KBUSY -> "BUSY"
+  | Bounded.KADDRXLAT -> "ADDRXLAT" | Bounded.KNOPROBE -> "NOPROBE"
+
+(* the message the library prints for a stage (prefix; "*" = anything may follow) *)
+let stage_msg (st : Bounded.stage) : string option =
+  match st with
+  | Bounded.StDataFmt -> Some "Unsupported ELF data format:"
+  | Bounded.StClass -> Some "Unsupported ELF class:"
+  | Bounded.StHdrSize (sect, sz) ->
+      Some (Printf.sprintf "Invalid ELF %s header entry size: %s" (if sect then "section" else "program") (dec sz))
+  | Bounded.StHdrRead (sect, idx, off) ->
+      Some (Printf.sprintf "Cannot read ELF %s header #%s at %s" (if sect then "section" else "program") (dec_n idx) (dec_n off))
+  | Bounded.StTooMany (sect, n) ->
+      Some (Printf.sprintf "Too many %s headers (%s)" (if sect then "section" else "program") (dec_n n))
+  | Bounded.StAlloc -> Some "Cannot allocate"
+  | Bounded.StNoContent -> Some "No content found"
+  | Bounded.StNotesRead off -> Some (Printf.sprintf "Cannot read ELF notes at %s" (dec_n off))
+  | Bounded.StStrtab -> None
+  | _ -> None
+
+let ub_name (r : 'a Bounded.res) : string =
+  match r with
+  | Bounded.OOB -> "MODEL-OOB" | Bounded.DivZero -> "MODEL-DIVZERO" | Bounded.BadShift -> "MODEL-BADSHIFT"
+  | Bounded.NullCall -> "MODEL-NULLCALL" | Bounded.OutOfFuel -> "MODEL-OUT-OF-FUEL" | _ -> "?"
+
+let chunk_bytes (c : Bounded.chunk) (maxn : int) : string =
+  let n = min maxn (int_of_n c.Bounded.clen) in
+  let b = Buffer.create 64 in
+  for i = 0 to n - 1 do
+    match Bounded.cget c (n_of_int i) with
+    | Some v -> Buffer.add_string b (Printf.sprintf "%02x" (int_of_n v))
+    | None -> ()
+  done;
+  Buffer.contents b
+
+let elf_forbidden = "!err=file_#0:_Cannot_read_ELF_ !err=file_#0:_Invalid_ELF_ !err=file_#0:_No_content " ^
+                    "!err=file_#0:_Too_many_ !err=file_#0:_Unsupported_ELF_"
+
+let predict_elf (f : BinNums.coq_N -> BinNums.coq_N) : string option =
+  match ElfModel.elf_probe alim f with
+  | Bounded.Err (Bounded.KNOPROBE, _) -> None
+  | Bounded.Err (st, stg) ->
+      let m = (match stage_msg stg with Some m -> " err=file_#0:_" ^ us m ^ "*" | None -> "") in
+      Some ("P open=" ^ status_name st ^ m)
+  | Bounded.Ok r ->
+      (* ERASEINFO: the descriptor of the last such note of the first walk, if the open succeeds *)
+      let erase = ref None and unknown = ref false in
+      Stdlib.List.iter (fun n ->
+        match NotesModel.noarch_note n with
+        | Bounded.Ok NotesModel.NaEraseinfo -> erase := Some n.NotesModel.n_desc
+        | Bounded.Ok _ -> ()
+        | _ -> unknown := true) r.ElfModel.er_notes;
+      let t = r.ElfModel.er_tables in
+      let has_strtab = (match t.ElfModel.et_strtab with Some _ -> true | None -> false) in
+      let e = if !unknown then " MODEL-OOB-IN-NOTE-NAME"
+        else if has_strtab then ""
+        else (match !erase with
+          | Some c -> Printf.sprintf " ?open=OK:erase=%x:%s" (int_of_n c.Bounded.clen) (chunk_bytes c 64)
+          | None -> " ?open=OK:!erase=") in
+      Some ("P " ^ elf_forbidden ^ e)
+  | r -> Some ("P " ^ ub_name r)
+
+let predict_file (specs : string list) : string =
+  match specs with
+  | [spec] ->
+      let f = file_of_bytes (build_spec spec) in
+      (* a flattened file is rearranged first: not predicted here *)
+      (match predict_elf f with Some p -> p | None -> "P ?")
+  | _ -> "P ?"
+
 let run_case (line : string) : string =
   match words line with
   | ["R"; cap; src] -> rle_line cap src
   | ["R"; cap] -> rle_line cap "-"
+  | "F" :: _opts :: specs -> predict_file specs
   | _ -> "SKIP"
 
 (* implementation judged by the spec: "R cap src | R ret len buf" *)
